@@ -295,7 +295,7 @@ def main(ctx):
             replay(ctx, o)
         for sbs, ops in FIXED_APPS:
             check_app(ctx, model, falcon, testing, sbs, ops, base_methods + ['PROPFIND', 'PUT'], PATHS, tmp, tag='fixed')
-        n_apps = 70 if ctx.tier == 'quick' else 700
+        n_apps = 150 if ctx.tier == 'quick' else 1500
         budget = 110 if ctx.tier == 'quick' else 900
         for i in range(n_apps):
             if ctx.time_left(budget) < 0:
